@@ -31,6 +31,7 @@ fn gate(p: &Partial, t: Tier) -> Result<(), String> {
     super::need(p, "recording-excerpt", 100)?;
     super::need(p, "sweep-cadence", 100)?;
     super::need(p, "buffer-boundary-junk", 500)?;
+    super::need(p, "overlong-line-with-embedded-frame", 100)?;
     Ok(())
 }
 
@@ -116,7 +117,8 @@ fn check_file(ctx: &mut Ctx, cfg: &Cfg, sname: &str, stream: &[Vec<u8>], clean: 
             &format!("{sname} + {}", desc.join(", ")),
             || format!("stream {sname} with junk line(s) {}: reader {}, table has {} row(s) {:X?}, clean stream gives {} row(s) {:X?}", desc.join(", "), o.label(), got.len(), got.iter().map(|r| r.key).collect::<Vec<_>>(), clean.len(), clean.iter().map(|r| r.key).collect::<Vec<_>>()),
             || json!({"kind": "file", "stream": stream.iter().map(|l| String::from_utf8_lossy(l).into_owned()).collect::<Vec<_>>(), "ins": ins, "cfg": cfg.opts,
-                "custom_junk": if junk.len() == 1 { Some(json!({"fill": junk[0].1.first(), "len": junk[0].1.len(), "crlf": junk[0].1.last() == Some(&b'\r')})) } else { None }}),
+                "custom_junk": if junk.len() == 1 { Some(json!({"fill": junk[0].1.first(), "len": junk[0].1.len(), "crlf": junk[0].1.last() == Some(&b'\r'),
+                    "tail": if junk[0].0.starts_with("digits") { Some(String::from_utf8_lossy(&junk[0].1[junk[0].1.len() - 28..]).into_owned()) } else { None }})) } else { None }}),
         );
     }
 }
@@ -289,6 +291,36 @@ fn run(ctx: &mut Ctx) {
             }
         }
     }
+    // a run of hex digits as long as a buffer (so the line as a whole is no frame) immediately followed by a
+    // complete valid frame on the same line: no piece of an over-long line may be taken as a frame
+    {
+        let stream: Vec<Vec<u8>> = vec![vf[0].clone(), vf[5].clone()];
+        let (_, clean) = run_clean(&cfg, &stream);
+        let phantom = frames::df17(5, 0x3C6DD1, frames::me_ident(4, 3, frames::callsign_codes("PHANTOM"))).hex().into_bytes();
+        let mut k = 0usize;
+        for p in [1024usize, 4096, 8192, 16384, 32768, 65536, 131072, 262144, 1048576] {
+            for d in [-29i64, -28, -14, -1, 0, 1, 12] {
+                for mult in [1usize, 2] {
+                    k += 1;
+                    job += 1;
+                    if !ctx.mine(job) {
+                        continue;
+                    }
+                    if p * mult > 1_100_000 && mult == 2 {
+                        continue;
+                    }
+                    let n = (p as i64 * mult as i64 + d) as usize;
+                    for fill in [b'0', b'F'] {
+                        let mut j = vec![fill; n];
+                        j.extend_from_slice(&phantom);
+                        let custom = vec![("digits + frame on one line", j)];
+                        ctx.count("overlong-line-with-embedded-frame");
+                        check_file(ctx, &cfg, &format!("embed{n}#{k}"), &stream, &clean, &[(1, 0)], &custom);
+                    }
+                }
+            }
+        }
+    }
     for (name, stream) in excerpts() {
         job += 1;
         if !ctx.mine(job) {
@@ -316,9 +348,13 @@ fn replay(ctx: &mut Ctx, case: &Value) {
         let len = c.get("len").and_then(|x| x.as_u64()).unwrap_or(0) as usize;
         let fill = c.get("fill").and_then(|x| x.as_u64()).unwrap_or(65) as u8;
         let crlf = c.get("crlf").and_then(|x| x.as_bool()).unwrap_or(false);
-        let mut j = vec![fill; if crlf { len - 1 } else { len }];
+        let tail = c.get("tail").and_then(|x| x.as_str()).map(|s| s.as_bytes().to_vec());
+        let mut j = vec![fill; if crlf { len - 1 } else { len } - tail.as_ref().map(|t| t.len()).unwrap_or(0)];
         if crlf {
             j.push(b'\r');
+        }
+        if let Some(t) = tail {
+            j.extend_from_slice(&t);
         }
         junk = vec![("buffer-size junk", j)];
     }
